@@ -45,6 +45,9 @@ type plasmaRun struct {
 	fakeNonce map[string][8]byte
 	// nonces mined in this history per (account, previous hash), with the difficulty they were mined for
 	mined map[string][]minedNonce
+	// s_plasma_methods.go: replay of the plasma contract's chain, tokens issued in the history
+	ledger    *plasmaLedger
+	ownTokens []types.ZenonTokenStandard
 }
 
 var plasmaFullMinesLeft = -1 // budget of whole-base-cost minings on non-first blocks per process (set on first use)
